@@ -31,6 +31,8 @@ type recorder struct {
 	mu     sync.Mutex
 	writes []scn.Write
 	pace   int
+	paceUs int
+	times  [][2]int64
 	n      int
 }
 
@@ -38,6 +40,10 @@ type recorder struct {
 // log.StdoutAdapter would; the exported formatter is the only way to see the
 // lines a context tracer collected.
 func (r *recorder) Write(msg log.Message, duplicates uint64) {
+	var t0 int64
+	if r.pace == 4 {
+		t0 = sinceStart()
+	}
 	w := scn.Write{Text: msg.Text(), Sev: int(msg.Severity()), File: msg.File(), Line: msg.LineNumber(), Dups: duplicates}
 	formatted := log.StdoutAdapter.Format(msg, duplicates)
 	if i := strings.IndexByte(formatted, '\n'); i >= 0 {
@@ -53,6 +59,12 @@ func (r *recorder) Write(msg log.Message, duplicates uint64) {
 	n := r.n
 	r.mu.Unlock()
 	switch r.pace {
+	case 4:
+		time.Sleep(time.Duration(r.paceUs) * time.Microsecond)
+		t1 := sinceStart()
+		r.mu.Lock()
+		r.times = append(r.times, [2]int64{t0, t1})
+		r.mu.Unlock()
 	case 1:
 		runtime.Gosched()
 	case 2:
@@ -79,6 +91,26 @@ func (r *recorder) snapshot() []scn.Write {
 }
 
 var stage atomic.Value
+
+var (
+	processStart = time.Now()
+	lastLogUs    atomic.Int64
+	trackLastLog bool
+)
+
+func sinceStart() int64 { return int64(time.Since(processStart) / time.Microsecond) }
+
+func noteLog() {
+	if trackLastLog {
+		now := sinceStart()
+		for {
+			old := lastLogUs.Load()
+			if now <= old || lastLogUs.CompareAndSwap(old, now) {
+				return
+			}
+		}
+	}
+}
 
 func fail(format string, a ...any) {
 	fmt.Fprintf(os.Stderr, "logscenario: "+format+"\n", a...)
@@ -139,6 +171,7 @@ func run(steps []step) {
 				default:
 					pkga.Log(l.Sev, l.F, l.Text)
 				}
+				noteLog()
 			}
 		case scn.OpTracer:
 			n := len(st.sevs)
@@ -153,12 +186,15 @@ func run(steps []step) {
 			for k := 0; k < st.ev.EchoAfter; k++ {
 				untraced(st.sevs[n-1:], st.fs[n-1:], st.texts[n-1:])
 			}
+			noteLog()
 		case scn.OpLevel, scn.OpPkg, scn.OpUnset:
 			applyChange(st.ev.Op)
 		case scn.OpTrigger:
 			log.TriggerWriter()
 		case scn.OpYield:
 			runtime.Gosched()
+		case scn.OpSleep:
+			time.Sleep(time.Duration(st.ev.Op.Us) * time.Microsecond)
 		}
 	}
 }
@@ -246,7 +282,8 @@ func main() {
 		}
 	}
 
-	rec := &recorder{pace: sc.AdapterPace}
+	rec := &recorder{pace: sc.AdapterPace, paceUs: sc.PaceUs}
+	trackLastLog = sc.AdapterPace == 4
 	stage.Store("start")
 
 	// watchdog: a child that is stuck reports where, with all goroutine stacks
@@ -297,7 +334,15 @@ func main() {
 		close(release[g])
 	}
 
-	if sc.PreShutdownSleepUs > 0 {
+	if sc.PreShutdownSleepUs >= scn.SilenceUs {
+		// the long silence is measured in 10ms timer wake-ups of THIS process (the same
+		// kind of pause the writer takes), not in one wall-clock sleep: a process that is
+		// stopped or starved does not accumulate ticks, and whenever this goroutine got
+		// its 200 wake-ups the writer goroutine had the same opportunities
+		for i := 0; i < sc.PreShutdownSleepUs/10000; i++ {
+			time.Sleep(10 * time.Millisecond)
+		}
+	} else if sc.PreShutdownSleepUs > 0 {
 		time.Sleep(time.Duration(sc.PreShutdownSleepUs) * time.Microsecond)
 	}
 
@@ -329,6 +374,12 @@ func main() {
 	res.After200ms = rec.len()
 	res.Writes = rec.snapshot()
 	res.Stage = "done"
+	if rec.pace == 4 {
+		rec.mu.Lock()
+		res.WriteTimes = append([][2]int64(nil), rec.times...)
+		rec.mu.Unlock()
+		res.LastLogUs = lastLogUs.Load()
+	}
 	if stutter != nil {
 		_ = stutter.Wait()
 	}
